@@ -251,6 +251,8 @@ class FnCompiler:
         names = {ast.Add: "add", ast.Sub: "sub", ast.Mult: "mul", ast.Div: "div"}
         if op is ast.Mod and a.ty == "S" and b.ty == "S":
             return Val("(ofmod o %s %s)" % (a.coq, b.coq), "S")
+        if op is ast.Pow and a.ty == "S" and b.ty == "S":
+            return Val("(opow o %s %s)" % (a.coq, b.coq), "S")
         if op not in names:
             self.fail(e, "unsupported binary operator")
         n = names[op]
@@ -1006,7 +1008,7 @@ def roots_def(src, tree):
     if [a.arg for a in fn.args.args] != ["c", "pow", "normalize"]:
         T.fail(F_MATH, fn, "roots: parameters changed")
     ok = (len(b) == 3 and T.seg(src, b[0]).replace(" ", "") == "r,t=cmath.polar(c)"
-          and T.seg(src, b[1]).replace(" ", "") == "r=1ifnormalizeelser**(1/pow)"
+          and isinstance(b[1], ast.Assign) and len(b[1].targets) == 1 and T.dotted(b[1].targets[0]) == "r"
           and isinstance(b[2], ast.Return) and isinstance(b[2].value, ast.ListComp))
     if not ok:
         T.fail(F_MATH, fn, "roots: body shape changed")
@@ -1027,18 +1029,24 @@ def roots_def(src, tree):
     ife = b[1].value
     if not (isinstance(ife, ast.IfExp) and isinstance(ife.test, ast.Name) and ife.test.id == "normalize"):
         T.fail(F_MATH, fn, "roots: radius is not `<e> if normalize else <e>`")
-    rad = comp.ex(ife.body, {})
-    if rad.ty != "S":
-        T.fail(F_MATH, fn, "roots: normalised radius is not a scalar")
+    renv = {"r": Val("r", "S"), "pow": Val("pow", "S")}
+    rad = comp.ex(ife.body, renv)
+    rad2 = comp.ex(ife.orelse, renv)
+    if rad.ty != "S" or rad2.ty != "S":
+        T.fail(F_MATH, fn, "roots: radius is not a scalar")
+    dfl = param_defaults(fn).get("normalize")
+    if not (isinstance(dfl, ast.Constant) and isinstance(dfl.value, bool)):
+        T.fail(F_MATH, fn, "roots: normalize has no boolean default")
     envl = {"t": Val("t", "S"), g.target.id: Val("(oZ o (Z.of_nat k_))", "S"), "pow": Val("(oZ o (Z.of_nat pow))", "S")}
     vl = comp.ex(lc.elt.args[1], envl)
     return ("(* roots(c, pow): with (r, t) = cmath.polar(c), the k-th returned root is cmath.rect(r', m_root_angle t k pow) *)\n"
             "Definition m_root_angle (t k pow : T) : T :=\n  %s.\n"
-            "(* r' when normalize=True *)\n"
-            "Definition m_root_radius_normalized : T :=\n  %s.\n"
+            "(* r' = <e1> if normalize else <e2>  with r = |c|; both branches as written *)\n"
+            "Definition m_root_radius (normalize : bool) (r pow : T) : T :=\n  if normalize then %s else %s.\n"
+            "Definition dflt_m_roots_normalize : bool :=\n  let _ := o in %s.\n"
             "(* the whole comprehension [cmath.rect(r', <angle>) for k in range(pow)]: the list of the angles *)\n"
             "Definition m_roots_angles (t : T) (pow : nat) : list T :=\n  map (fun k_ : nat => %s) (seq 0 pow)."
-            % (v.coq, rad.coq, vl.coq)), T.sha(src, fn)
+            % (v.coq, rad.coq, rad2.coq, "true" if dfl.value else "false", vl.coq)), T.sha(src, fn)
 
 
 # ====================================================================== effects
